@@ -43,7 +43,7 @@ def langs_for(forest):
 def bounds(tier):
     return {'catalogue_entries': len(cat.ALL), 'core_entries': len(cat.CORE),
             'max_nodes_full_catalogue': 2, 'max_nodes_core': 3 if tier == 'thorough' else 2,
-            'layouts': ['blank', 'newline', 'glued'],
+            'layouts': ['blank', 'newline', 'glued'], 'frames': ['word before and after', 'construct first in text', 'construct last in text (no final newline)', 'both'],
             'configs': ['pack=* lang=en', 'pack=* lang=de (documents with German shorthands; every 5th other document)']}
 
 
@@ -55,13 +55,22 @@ def cases(tier, seed):
         k += 1
         if k % 5 == 0 and langs_for(f) == ['en']:
             yield [f, sep, 'de']
+    # the construct as very first / very last token of the text
+    for n in (1, 2):
+        for f in cat.forests(cat.ALL if n == 1 or tier != 'quick' else cat.CORE, n):
+            if len(f) != n:
+                continue        # sequences only: nesting does not change what is first / last
+            for frame in ('nolead', 'notrail', 'bare'):
+                for sep in (' ', '\n'):
+                    yield [f, sep, langs_for(f)[0], frame]
 
 
 def run_case(case):
     """returns (rendered or None, obs or None, skip reason)"""
-    forest, sep, lang = case
+    forest, sep, lang = case[:3]
+    frame = case[3] if len(case) > 3 else 'full'
     try:
-        r = cat.render(forest, sep, lang)
+        r = cat.render(forest, sep, lang, frame=frame)
     except cat.Invalid as e:
         return None, None, e.args[0]
     o = impl.run_filter(r.src, {'pack': '*', 'lang': lang})
@@ -89,9 +98,10 @@ def innermost(r, off):
 
 
 def explain(case):
-    forest, sep, lang = case
+    forest, sep, lang = case[:3]
+    frame = case[3] if len(case) > 3 else 'full'
     try:
-        r = cat.render(forest, sep, lang)
+        r = cat.render(forest, sep, lang, frame=frame)
     except cat.Invalid as e:
         return 'invalid tree: %s' % e.args[0]
     o = impl.run_filter(r.src, {'pack': '*', 'lang': lang})
